@@ -26,9 +26,25 @@ type SpecFunc struct {
 }
 
 type SpecLib struct {
-	Text  string
-	Funcs map[string]*SpecFunc
-	acc   map[string]string
+	Text        string // common text (everything outside opaque blocks)
+	Funcs       map[string]*SpecFunc
+	acc         map[string]string
+	Opaque      map[string][2]string // name -> {revealed text, hidden text (declaration + proved axioms)}
+	OpaqueOrder []string
+}
+
+// TextFor renders the library with the given opaque definitions revealed.
+func (lib *SpecLib) TextFor(reveal map[string]bool) string {
+	var sb strings.Builder
+	sb.WriteString(lib.Text)
+	for _, n := range lib.OpaqueOrder {
+		if reveal[n] {
+			sb.WriteString(lib.Opaque[n][0])
+		} else {
+			sb.WriteString(lib.Opaque[n][1])
+		}
+	}
+	return sb.String()
 }
 
 // parseSexps splits text into top-level s-expressions (comments stripped).
@@ -126,45 +142,95 @@ func sexpChildren(s string) []string {
 }
 
 func loadSpecLib(files []string) (*SpecLib, error) {
-	lib := &SpecLib{Funcs: map[string]*SpecFunc{}}
+	lib := &SpecLib{Funcs: map[string]*SpecFunc{}, Opaque: map[string][2]string{}}
+	reOp := regexp.MustCompile(`^;\s*opaque-(begin|else|end)\s*(\S*)`)
 	for _, f := range files {
 		b, err := os.ReadFile(f)
 		if err != nil {
 			return nil, err
 		}
-		for _, sx := range parseSexps(string(b)) {
-			ch := sexpChildren(sx)
-			if len(ch) == 0 {
+		// split into common / revealed / hidden segments
+		mode := "common"
+		cur := ""
+		var common, rev, hid strings.Builder
+		for _, l := range strings.Split(string(b), "\n") {
+			if m := reOp.FindStringSubmatch(strings.TrimSpace(l)); m != nil {
+				switch m[1] {
+				case "begin":
+					mode, cur = "rev", m[2]
+					rev.Reset()
+					hid.Reset()
+				case "else":
+					mode = "hid"
+				case "end":
+					lib.Opaque[cur] = [2]string{rev.String(), hid.String()}
+					lib.OpaqueOrder = append(lib.OpaqueOrder, cur)
+					mode = "common"
+				}
 				continue
 			}
-			switch ch[0] {
-			case "define-fun", "define-fun-rec":
-				if len(ch) < 5 {
-					return nil, fmt.Errorf("%s: bad define-fun %s", f, sx)
-				}
-				sf := &SpecFunc{Name: ch[1], Ret: ch[3]}
-				for _, p := range sexpChildren(ch[2]) {
-					pc := sexpChildren(p)
-					sf.Params = append(sf.Params, SpecParam{Name: pc[0], Sort: pc[1]})
-				}
-				lib.Funcs[sf.Name] = sf
-			case "declare-fun":
-				sf := &SpecFunc{Name: ch[1], Ret: ch[3]}
-				ps := sexpChildren(ch[2])
-				for i := 0; i < len(ps); i++ {
-					if ps[i] == "(Array Int (_ BitVec 8))" && i+2 < len(ps) && ps[i+1] == "Int" && ps[i+2] == "Int" {
-						sf.Params = append(sf.Params, SpecParam{Name: fmt.Sprintf("b%d!arr", i), Sort: ps[i]}, SpecParam{Name: fmt.Sprintf("b%d!off", i), Sort: "Int"}, SpecParam{Name: fmt.Sprintf("b%d!len", i), Sort: "Int"})
-						i += 2
-						continue
-					}
-					sf.Params = append(sf.Params, SpecParam{Name: fmt.Sprintf("p%d", i), Sort: ps[i]})
-				}
-				lib.Funcs[sf.Name] = sf
-			case "declare-const":
-				lib.Funcs[ch[1]] = &SpecFunc{Name: ch[1], Ret: ch[2]}
+			switch mode {
+			case "common":
+				common.WriteString(l + "\n")
+			case "rev":
+				rev.WriteString(l + "\n")
+			case "hid":
+				hid.WriteString(l + "\n")
 			}
-			lib.Text += sx + "\n"
 		}
+		texts := []string{common.String()}
+		for _, n := range lib.OpaqueOrder {
+			texts = append(texts, lib.Opaque[n][0])
+		}
+		for ti, text := range texts {
+			for _, sx := range parseSexps(text) {
+				ch := sexpChildren(sx)
+				if len(ch) == 0 {
+					continue
+				}
+				switch ch[0] {
+				case "define-fun", "define-fun-rec":
+					if len(ch) < 5 {
+						return nil, fmt.Errorf("%s: bad define-fun %s", f, sx)
+					}
+					sf := &SpecFunc{Name: ch[1], Ret: ch[3]}
+					for _, p := range sexpChildren(ch[2]) {
+						pc := sexpChildren(p)
+						sf.Params = append(sf.Params, SpecParam{Name: pc[0], Sort: pc[1]})
+					}
+					lib.Funcs[sf.Name] = sf
+				case "declare-fun":
+					sf := &SpecFunc{Name: ch[1], Ret: ch[3]}
+					ps := sexpChildren(ch[2])
+					for i := 0; i < len(ps); i++ {
+						if ps[i] == "(Array Int (_ BitVec 8))" && i+2 < len(ps) && ps[i+1] == "Int" && ps[i+2] == "Int" {
+							sf.Params = append(sf.Params, SpecParam{Name: fmt.Sprintf("b%d!arr", i), Sort: ps[i]}, SpecParam{Name: fmt.Sprintf("b%d!off", i), Sort: "Int"}, SpecParam{Name: fmt.Sprintf("b%d!len", i), Sort: "Int"})
+							i += 2
+							continue
+						}
+						sf.Params = append(sf.Params, SpecParam{Name: fmt.Sprintf("p%d", i), Sort: ps[i]})
+					}
+					lib.Funcs[sf.Name] = sf
+				case "declare-const":
+					lib.Funcs[ch[1]] = &SpecFunc{Name: ch[1], Ret: ch[2]}
+				}
+				if ti == 0 {
+					lib.Text += sx + "\n"
+				}
+			}
+		}
+		// opaque texts keep their assert lines verbatim
+	}
+	// normalise opaque segments (strip comments)
+	for n, p := range lib.Opaque {
+		var a, b strings.Builder
+		for _, sx := range parseSexps(p[0]) {
+			a.WriteString(sx + "\n")
+		}
+		for _, sx := range parseSexps(p[1]) {
+			b.WriteString(sx + "\n")
+		}
+		lib.Opaque[n] = [2]string{a.String(), b.String()}
 	}
 	return lib, nil
 }
@@ -758,6 +824,23 @@ func (e *Env) call(v *ast.CallExpr, want *Sort) T {
 		t := n.compile(v.Args[0], want)
 		e.errs = n.errs
 		return t
+	case "locked":
+		// the value of an expression right after the function acquired its lock
+		if g.lockSt == nil {
+			return e.fail("locked(): no lock acquired in this function before this point")
+		}
+		n := *e
+		n.st = g.lockSt
+		t := n.compile(v.Args[0], want)
+		e.errs = n.errs
+		return t
+	case "holds", "holds_w":
+		t := e.compile(v.Args[0], nil)
+		h := g.stGet(e.st, "L.held", &Sort{K: KRaw, Name: "(Array Int Int)"})
+		if name == "holds_w" {
+			return T{S: app("=", app("select", h, t.S), "2"), So: SBool}
+		}
+		return T{S: app(">=", app("select", h, t.S), "1"), So: SBool}
 	case "len", "cap":
 		if nargs != 1 {
 			return e.fail("%s takes one argument", name)
@@ -772,6 +855,10 @@ func (e *Env) call(v *ast.CallExpr, want *Sort) T {
 			return T{S: fmt.Sprint(t.So.W), So: SMath}
 		}
 		return e.fail("len of sort %s", t.So.Name)
+	case "touch":
+		// touch(s[k]): true; only makes s[k] the instantiation pattern of the enclosing quantifier
+		_ = e.compile(v.Args[0], nil)
+		return T{S: "true", So: SBool}
 	case "implies":
 		if nargs != 2 {
 			return e.fail("implies takes two arguments")
